@@ -121,6 +121,7 @@ structure Kernel where
   bits : Nat               -- number of aliasing configuration bits
   allowed : List Nat       -- parameters the function may write by design (private helpers only; `[]` if public)
   isPublic : Bool
+  retContainer : Bool      -- the returned value is a container created by the function (only its elements may alias)
   rets : List (Var × List Nat)   -- returned variables (the value itself, then one per named field of a returned
                                  -- record) with the parameters each may alias (used at call sites)
   ir : Program
@@ -130,7 +131,8 @@ structure Kernel where
 stay inside `allowed` -/
 def Kernel.check (k : Kernel) : Bool :=
   decide (maxBit k.ir ≤ k.bits) &&
-  ((!k.isPublic || k.allowed.isEmpty) && k.allowed.all (fun j => decide (j < k.nreal))) &&
+  ((!k.isPublic || k.allowed.isEmpty) && k.allowed.all (fun j => decide (j < k.nreal)) &&
+   (!k.isPublic || k.retContainer || k.rets.all (fun r => r.2.all (fun j => decide (j < k.nreal))))) &&
   (List.range (2 ^ k.bits)).all (fun c =>
     (writtenArgs k.nargs k.ir c).all (fun j => k.allowed.contains j) &&
     k.rets.all (fun r => (returnAliases k.nargs k.ir c r.1).all (fun j => r.2.contains j)))
